@@ -19,7 +19,7 @@ MOD = "vf.props.c09"
 AVAILABLE = {"REGISTERED", "REROUTED", "RETRY"}
 FINAL = {"SUCCESS", "FAILED", "CONCURRENCY_CONTROLLED_FINAL"}
 LIMITS = (0, 1, 2, 10)
-NEXT = {"REGISTERED": "PENDING", "PENDING": "RUNNING", "RUNNING": "SUCCESS"}
+NEXT = {"REGISTERED": "PENDING", "PENDING": "RUNNING", "RUNNING": "SUCCESS", "RETRY": "PENDING"}
 
 
 # ---------------------------------------------------------------------------
@@ -42,6 +42,7 @@ class Impl(bfs.System):
         self.ren = dumps.Renamer()
         for i in self.ids:
             self.ren.see(i)
+        self.asks = 0
 
     def status(self, k: int) -> str:
         return self.app.orchestrator.get_invocation_status(self.ids[k]).name
@@ -61,6 +62,15 @@ class Impl(bfs.System):
                     return ("n/a",)
                 orch.set_invocation_status(self.ids[op[1]], S[nxt], runner_ctx("r1"))
                 return ("ok", nxt)
+            if op[0] == "retry":
+                # the running body asks for a retry: the invocation is runnable again
+                orch.set_invocation_status(self.ids[op[1]], S.RETRY, runner_ctx("r1"))
+                return ("ok", "RETRY")
+            if op[0] == "ask":
+                # a runner asks for blocking invocations in the middle of the history (a query is an operation too:
+                # whatever it caches or prunes is carried into the following steps)
+                self.asks += 1
+                return ("asked", len(list(orch.get_blocking_invocations(2))))
             if op[0] == "stale-finish":
                 # a runner that no longer holds the invocation (it was rerouted / never started by it) reports its
                 # completion: the change must be refused and nothing else may happen
@@ -73,7 +83,9 @@ class Impl(bfs.System):
     def dump(self) -> Any:
         self.app.state_backend.wait_for_all_async_operations()
         o = dumps.orchestrator(self.app, self.backend, self.ren, with_time_rank=False)
-        return (tuple((r[0], r[1]) for r in o[0]), o[2])
+        # (the number of queries made so far is part of the state: what a query caches or prunes is not in this dump,
+        # a state after a query must not be merged with the same records before it)
+        return (tuple((r[0], r[1]) for r in o[0]), o[2], self.asks)
 
     def blocking(self, n: int) -> tuple:
         return tuple(sorted(self.ren(i) for i in self.app.orchestrator.get_blocking_invocations(n)))
@@ -99,6 +111,9 @@ class Model:
                     st[op[1]] = nxt
                     if nxt in FINAL:
                         edges = {(x, y) for (x, y) in edges if y != op[1]}
+            elif op[0] == "retry":
+                if st[op[1]] == "RUNNING":
+                    st[op[1]] = "RETRY"
         return st, edges
 
     def blocking(self, hist: list) -> set:
@@ -126,6 +141,10 @@ def alphabet(nids: int, hist: list) -> list[tuple]:
         if st[x] == "RUNNING" and any(a == x for (a, _) in edges):
             continue
         ops.append(("step", x))
+        if st[x] == "RUNNING" and len(hist) < 5 and not any(o[0] == "retry" for o in hist):
+            ops.append(("retry", x))  # (one retry per history)
+    if hist and len(hist) < 5 and hist[-1] != ("ask",) and sum(1 for o in hist if o == ("ask",)) < 2:
+        ops.append(("ask",))
     for x in range(nids):
         if st[x] in ("REGISTERED", "PENDING") and any(b == x for (_, b) in edges) and ("stale-finish", x) not in hist:
             ops.append(("stale-finish", x))
@@ -346,7 +365,7 @@ def run(ctx: Ctx) -> None:
         if only:
             ds = [d for d in ds if only in e1.desc_key(d) or only == "tree"]
         e1.explore_all(ctx, MOD, ds, lambda d: d["bound"], replay_every=200)
-    ctx.rule = (f"wait graph: BFS to depth {depth} over wait(x,[y..]) / status step (REGISTERED->PENDING->RUNNING->SUCCESS) on "
+    ctx.rule = (f"wait graph: BFS to depth {depth} over wait(x,[y..]) / status step (REGISTERED->PENDING->RUNNING->SUCCESS) / in the first 5 steps also one retry (RUNNING->RETRY) and up to two blocking queries as operations (number of queries part of the state) on "
                 f"{nids} ids, both orchestrators, against a set-of-edges model; in every state get_blocking_invocations(n) for "
                 f"n in {LIMITS} must be a subset of the model's blocking set of size min(n, |set|). trees: all {len(trees)} call "
                 "trees of depth <= 2 / fan-out <= 2 (single, group) on the real ThreadRunner with 1 and 2 slots, memory and "
